@@ -172,6 +172,16 @@ theorem wf_addSeq {s : Spec} (wf : SpecWF s) (o : SeqObj) (hfresh : s.findSeq o.
   · intro its hits i hi
     obtain ⟨p, hp⟩ := Option.isSome_iff_exists.1 (wf.equal its hits i hi)
     rw [mono _ _ hp]; rfl
+  · show ((s.seqs ++ [o]).map (·.name)).Nodup
+    rw [List.map_append]
+    refine List.nodup_append.2 ⟨wf.seqNames, by simp, ?_⟩
+    intro a ha b hb
+    simp at hb
+    subst hb
+    obtain ⟨o', ho', rfl⟩ := List.mem_map.1 ha
+    intro e
+    have := List.find?_eq_none.1 hfresh o' ho'
+    simp [e] at this
   · exact hsupE
 
 theorem wf_addStrand {s : Spec} (wf : SpecWF s) (o : StrandObj) (hfresh : s.findStrand o.name = none)
@@ -235,6 +245,7 @@ theorem wf_addStrand {s : Spec} (wf : SpecWF s) (o : StrandObj) (hfresh : s.find
       rw [hk', monoS _ _ hp, hk, hp]
     rw [this]
   · exact wf.equal
+  · exact wf.seqNames
   · exact wf.supEarlier
 
 theorem wf_addStruct {s : Spec} (wf : SpecWF s) (so : StructObj)
@@ -260,6 +271,7 @@ theorem wf_addStruct {s : Spec} (wf : SpecWF s) (so : StructObj)
     · exact wf.structLen so' h
     · simp at h; subst h; exact hlen
   · exact wf.equal
+  · exact wf.seqNames
   · exact wf.supEarlier
 
 theorem wf_addEqual {s : Spec} (wf : SpecWF s) (its : List ItemRef)
@@ -281,6 +293,7 @@ theorem wf_addEqual {s : Spec} (wf : SpecWF s) (its : List ItemRef)
     rcases List.mem_append.1 hits' with h | h
     · exact wf.equal its' h
     · simp at h; subst h; exact hres
+  · exact wf.seqNames
   · exact wf.supEarlier
 
 theorem specWF_empty : SpecWF {} := by
@@ -295,6 +308,7 @@ theorem specWF_empty : SpecWF {} := by
   · intro _ h; simp at h
   · intro _ h; simp at h
   · intro _ h; simp at h
+  · simp
   · intro i o h; simp at h
 
 theorem mapM_except_ok {α β ε : Type} (f : α → Except ε β) (l : List α) {bs : List β} (h : l.mapM f = .ok bs) :
